@@ -246,10 +246,100 @@ Definition in_engine (smax : N) (evs : list val) : val :=
       verdict code (if rej then tag "in-refused" else tag "in-routed") nontriv []
   end.
 
+(* ---------- unit level: the exported tables driven directly with long sequences ----------
+   case = (2 max goBad (seg ...))   OutboundTopicAliases of mqtt.NewOutboundTopicAliases(max); topic number i
+                                    stands for a distinct topic
+          seg = (0 from to)         Set on the fresh topics from..to, each answered (0, false)
+              | (1 i alias exists)  one Set call and its answer
+          goBad = number of calls the harness' own running receiver check found unresolvable (cross-check only)
+        | (3 smax ((id topic result) ...))   InboundTopicAliases.Set(id, topic) = result; topic 0 = ""
+
+   Every outbound Set call is read as one queued-and-written PUBLISH, as publishToClient would form it
+   (topic stripped iff the alias existed), and the receiver's check [recv_step] decides. *)
+
+Definition topic_of (i : N) : bytes := [117; i mod 256; (i / 256) mod 256; i / 65536].
+
+(* one packet of [recv_ok]: the receiver's table afterwards, or None if the packet is not acceptable *)
+Definition recv_step (tam : N) (tab : list (N * bytes)) (w : wire) : option (list (N * bytes)) :=
+  let '(intended, wt, a) := w in
+  if a =? 0 then (if negb (is_empty wt) && beq_bytes wt intended then Some tab else None)
+  else if negb (a <=? tam) then None
+  else if is_empty wt then
+    match lookup_a a tab with
+    | Some t => if beq_bytes t intended then Some tab else None
+    | None => None
+    end
+  else if beq_bytes wt intended then Some ((a, wt) :: tab) else None.
+
+Record ustate := { u_tab : otab; u_rtab : list (N * bytes); u_spec_bad : bool; u_model_bad : bool; u_idx : N }.
+
+Definition unit_call (tam : N) (s : ustate) (i alias : N) (exists_ : bool) : ustate :=
+  let tp := topic_of i in
+  let '(ma, mex, t') := out_set (u_tab s) tp in
+  let w : wire := (tp, if (0 <? alias) && exists_ then [] else tp, alias) in
+  let model_ok := (ma =? alias) && Bool.eqb mex exists_ in
+  match recv_step tam (u_rtab s) w with
+  | Some tab' =>
+      {| u_tab := t'; u_rtab := tab'; u_spec_bad := u_spec_bad s; u_model_bad := u_model_bad s || negb model_ok; u_idx := i |}
+  | None =>
+      {| u_tab := t'; u_rtab := u_rtab s; u_spec_bad := true; u_model_bad := u_model_bad s || negb model_ok; u_idx := i |}
+  end.
+
+Definition unit_seg (tam : N) (s : ustate) (v : val) : option ustate :=
+  match v with
+  | VL [VN 0; VN from; VN to] =>
+      if to <? from then Some s
+      else Some (snd (N.iter (to - from + 1)
+                        (fun p : N * ustate => let '(i, st) := p in (i + 1, unit_call tam st i 0 false)) (from, s)))
+  | VL [VN 1; VN i; VN alias; ex] => do e <- as_bool ex; Some (unit_call tam s i alias e)
+  | _ => None
+  end.
+
+Fixpoint unit_segs (tam : N) (s : ustate) (l : list val) : option ustate :=
+  match l with
+  | [] => Some s
+  | v :: r => match unit_seg tam s v with Some s' => unit_segs tam s' r | None => None end
+  end.
+
+Definition unit_out_engine (max goBad : N) (segs : list val) : val :=
+  let s0 := {| u_tab := oinit max; u_rtab := []; u_spec_bad := false; u_model_bad := false; u_idx := 0 |} in
+  match unit_segs max s0 segs with
+  | None => bad_case
+  | Some s =>
+      let tg := tag "unit-out" in
+      if u_spec_bad s then verdict 1 tg true []
+      else if u_model_bad s || negb (goBad =? 0) then verdict 2 tg true []
+      else verdict 0 tg true []
+  end.
+
+Definition idx_topic (i : N) : bytes := if i =? 0 then [] else topic_of i.
+
+(* InboundTopicAliases.Set on its own: the answer is the topic given, or for an empty topic the last
+   non-empty topic given for that alias ("" if none) *)
+Fixpoint unit_in_walk (t : itab) (prev : list (bytes * N)) (l : list val) (model_bad : bool) : option N :=
+  match l with
+  | [] => Some (if model_bad then 2 else 0)
+  | VL [VN id; VN ti; VN ri] :: r =>
+      let tp := idx_topic ti in
+      let want := if is_empty tp then match last_binding id prev with Some x => x | None => [] end else tp in
+      let '(m, t') := in_set t id tp in
+      if negb (beq_bytes (idx_topic ri) want) then Some 1
+      else unit_in_walk t' ((tp, id) :: prev) r (model_bad || negb (beq_bytes m (idx_topic ri)))
+  | _ => None
+  end.
+
+Definition unit_in_engine (smax : N) (l : list val) : val :=
+  match unit_in_walk (iinit smax) [] l false with
+  | Some code => verdict code (tag "unit-in") true []
+  | None => bad_case
+  end.
+
 (* ENGINE alias Session.Alias.alias_engine *)
 Definition alias_engine (v : val) : val :=
   match v with
   | VL [VN 0; VN tam; VL evs] => out_engine tam evs
   | VL [VN 1; VN smax; VL evs] => in_engine smax evs
+  | VL [VN 2; VN max; VN goBad; VL segs] => unit_out_engine max goBad segs
+  | VL [VN 3; VN smax; VL calls] => unit_in_engine smax calls
   | _ => bad_case
   end.
